@@ -56,12 +56,14 @@ def run_harness(args, out_path, stdin_path=None, timeout=600, stdin_text=None):
     """Run the harness; stdout -> out_path.  Returns (returncode, stderr_tail).  A crash or
     timeout of the harness process is data for the caller (C04), not an exception."""
     build_harness()
-    with open(out_path, "wb") as out:
+    # the trace goes to VH_OUT; the child's stdout (anything the code under test prints) is discarded
+    env = dict(os.environ, VH_OUT=out_path)
+    if True:
         stdin = open(stdin_path, "rb") if stdin_path else (subprocess.PIPE if stdin_text is not None else subprocess.DEVNULL)
         try:
             p = subprocess.run([VH] + [str(a) for a in args], stdin=stdin if stdin_text is None else None,
-                               input=stdin_text.encode() if stdin_text is not None else None,
-                               stdout=out, stderr=subprocess.PIPE, timeout=timeout)
+                               input=stdin_text.encode() if stdin_text is not None else None, env=env,
+                               stdout=subprocess.DEVNULL, stderr=subprocess.PIPE, timeout=timeout)
             rc, err = p.returncode, p.stderr.decode(errors="replace")[-2000:]
         except subprocess.TimeoutExpired:
             rc, err = 124, "timeout"
@@ -91,7 +93,7 @@ def parse_replay_line(line):
 
 
 def tlc_mc(name, module, cfg, workers=None, timeout=1800, xmx="8g", env=None, replay_out=None,
-           coverage=True, simulate=None, depth=None):
+           coverage=False, simulate=None, depth=None):
     """Model-check `module` with `cfg` (files in spec/).  REPLAY lines go to replay_out (ndjson).
     Returns dict(ok, generated, distinct, coverage{action:count}, error, log, replays)."""
     ensure_dirs()
@@ -404,7 +406,7 @@ class Run:
         return len(bad_cases)
 
     def gen_validate(self, label, harness_args, module, cfg, shards, classify, count_cases, env=None,
-                     timeout=1800, stdin_files=None, xmx="3g"):
+                     timeout=1800, stdin_files=None, xmx="3g", case_key="case", crash_is_violation=False):
         """Run the harness `shards` times (seed varies per shard, or one stdin file per shard) and
         validate every trace in parallel."""
         build_harness()
@@ -414,22 +416,36 @@ class Run:
             args = list(harness_args) + ["--seed", str(self.seed * 1000 + i), "--shard", str(i), "--shards", str(shards)]
             rc, err = run_harness(args, tr, stdin_path=stdin_files[i] if stdin_files else None, timeout=timeout)
             if rc != 0:
+                if crash_is_violation:
+                    # the harness died (abort, stack overflow, watchdog): the case it was running is in <trace>.current
+                    cur = tr + ".current"
+                    lines = []
+                    if os.path.exists(cur):
+                        with open(cur) as f:
+                            lines = [l.rstrip("\n") for l in f if l.strip()]
+                    self.v.failing_case(lines or ['{"ev":"crash","note":"no current case recorded"}'],
+                                        dict(tier=self.tier, seed=self.seed, spec=module, cfg=cfg, repo=repo_rev(), crash="exit %d" % rc,
+                                             harness_args=[str(a) for a in harness_args]), classify)
+                    return ("crash", i, rc, err, tr, 0)
                 return ("harness", i, rc, err, tr, 0)
             n = count_cases(tr)
-            bad = self.validate("%s-%s-%d" % (self.prop, label, i), module, cfg, tr, classify, env=env, timeout=timeout, xmx=xmx)
+            bad = self.validate("%s-%s-%d" % (self.prop, label, i), module, cfg, tr, classify, env=env, timeout=timeout, xmx=xmx,
+                                case_key=case_key)
             return ("ok", i, 0, "", tr, n, bad)
 
         results = parallel([(one, (i,), {}) for i in range(shards)])
         total = 0
         for r in results:
-            if r[0] == "harness":
+            if r[0] == "crash":
+                log("[crash] harness %s shard %d exited %d" % (label, r[1], r[2]))
+            elif r[0] == "harness":
                 self.tool_errors.append("harness %s shard %d exited %d: %s" % (label, r[1], r[2], r[3][-300:]))
             else:
                 total += r[5]
         self.traces += total
         # keep a sample
         for r in results:
-            if r[0] == "ok" and len(self.samples) < 4:
+            if r[0] == "ok" and len(self.samples) < 6:
                 try:
                     with open(r[4]) as f:
                         first = [json.loads(next(f)) for _ in range(3)]
